@@ -58,7 +58,11 @@ man = {
     ],
     "checks": checks,
     "not_applicable": na,
-    "notes": "Every check: ./check <id> [--tier quick|thorough]; see DESIGN.md §6. Known findings: KNOWN_FINDINGS.txt.",
+    "notes": "Every check: ./check <id> [--tier quick|thorough] (VERIF_SEED selects the PRNG seed); see DESIGN.md §6 and, for what was built, "
+             "§13 (findings D1-D24 with their fix: commits, false alarms corrected, trusted base, seeded changes). Known findings: "
+             "KNOWN_FINDINGS.txt (two kept: C19 third-party ygot trailing '/', C15 latency zero sentinel). Seeded changes and the "
+             "check x change table: seeded/, seeded/MATRIX.md. A check that cannot finish because the implementation hangs reports the "
+             "unanswered operation; a divergence that does not reproduce in 5 re-runs is recorded in the evidence (coverage.not_reproducible), not reported.",
 }
 with open(os.path.join(V, "MANIFEST.json"), "w") as fh:
     json.dump(man, fh, indent=1)
